@@ -163,22 +163,25 @@ func ReassembleTOAST(chunks []TOASTChunk, valueID uint32, ptr *TOASTPointer) []b
 
 	data := buf.Bytes()
 
-	// Decompress if needed
-	if ptr != nil && ptr.IsCompressed && len(data) > 0 {
-		rawSize := int(ptr.RawSize)
-		
+	// Decompress if needed. A compressed external value is stored as the 4-byte
+	// va_tcinfo word (raw size | method << 30) followed by the compressed stream,
+	// and va_rawsize in the pointer includes the 4-byte varlena header.
+	if ptr != nil && ptr.IsCompressed && len(data) > 4 {
+		rawSize := int(ptr.RawSize) - 4
+		stream := data[4:]
+
 		// Try LZ4 first if compression method indicates it
 		if ptr.CompressionMethod == ToastCompressionLZ4 {
-			if decompressed, err := decompressLZ4(data, rawSize); err == nil {
+			if decompressed, err := decompressLZ4(stream, rawSize); err == nil {
 				return decompressed
 			}
 		}
-		
+
 		// Try pglz
-		if decompressed, err := decompressPGLZ(data, rawSize); err == nil && len(decompressed) > 0 {
+		if decompressed, err := decompressPGLZ(stream, rawSize); err == nil && len(decompressed) > 0 {
 			return decompressed
 		}
-		
+
 		// Try zlib as fallback
 		if r, err := zlib.NewReader(bytes.NewReader(data)); err == nil {
 			defer r.Close()
